@@ -1,5 +1,7 @@
 package bigbuff
 
+import "sync"
+
 // Intrinsics intercepted by the symbolic engine (body-less here; native bodies are in rt_native.go,
 // which replaces this file for replay).
 
@@ -23,3 +25,5 @@ func verifLastRandN() int
 func verifLastRand() int
 func verifBoundSelectDefaults(n int)
 func verifBoundTryFailures(n int)
+func verifPendingAfterFuncs() int
+func verifCondWaiters(c *sync.Cond) int
